@@ -70,6 +70,7 @@ class Universe:
             pass
         self.n_out = 0
         self.oplog: list[dict] = []
+        self.ever: set[str] = set()
 
     def abs(self, rel):
         return os.path.join(self.base, rel)
@@ -210,6 +211,7 @@ class Universe:
         else:
             raise ValueError(kind)
         self.oplog.append(rec)
+        self.ever.update(self.m.t)
         return rec
 
 
@@ -431,6 +433,17 @@ class Session:
             root = root_abs + "/"
         else:
             root = root_abs
+        self.schedule_arg = None
+        if spelling == "path":
+            import pathlib
+
+            self.schedule_arg = pathlib.Path(root_abs)
+        elif spelling == "relpath":
+            import pathlib
+
+            os.chdir(u.base)
+            root = u.root_name
+            self.schedule_arg = pathlib.Path(root)
         self.root_spelled = os.fsencode(root) if as_bytes else root
         self.as_bytes = as_bytes
         sent = os.path.join(self.root_spelled, os.fsencode(SENT) if as_bytes else SENT)
@@ -448,7 +461,8 @@ class Session:
             self.obs = PollingObserver(timeout=poll_interval)
         self.col.polling = observer != "inotify"
         self.exc_mark = monitors.exc_mark()
-        self.watch = self.obs.schedule(self.col, self.root_spelled, recursive=recursive, event_filter=event_filter)
+        self.watch = self.obs.schedule(self.col, self.schedule_arg if self.schedule_arg is not None else self.root_spelled,
+                                       recursive=recursive, event_filter=event_filter)
         self.obs.start()
         self.n_sent = 0
         self.initial = u.walk_root()
